@@ -17,6 +17,8 @@ def main(spec, argv):
     for h in spec.get("harness", []):
         if c.tier not in h.get("tiers", ["quick", "thorough"]): continue
         n = h["n"][c.tier]
+        if getattr(c, "soft", None) and c.tier == "quick":
+            n *= 3   # a mirrored statement changed shape: re-validate the model on more cases
         hargs = ["--n", str(n)] + h.get("args", [])
         rel = h.get("release", False)
         if not c.build_harness([h["bin"]], release=rel): continue
